@@ -9,7 +9,7 @@ from ..seams import Sim, make_simyp
 PROP = 'C03'
 LEVEL = 'fault_enumeration'
 CASES_ARE_COUNTED = True
-TIERS = {'quick': {'runs': 9000, 'budget_s': 45}, 'thorough': {'runs': 600000, 'budget_s': 900}}
+TIERS = {'quick': {'runs': 7000, 'budget_s': 50}, 'thorough': {'runs': 600000, 'budget_s': 900}}
 RULE = ('one run = one seeded world (layered program over fact/native predicates with cut, ;, ->, \\+, once, call/N, findall, =, \\=, '
         'member/append; query with fresh/shared/pre-bound variables). Per world the fault space is enumerated completely: every '
         'abandonment point k in 0..#answers x {close, drop, throw}, every native invocation j x {raise before first yield, raise on '
